@@ -60,13 +60,11 @@ theorem out_eq' (P N : K) :
   rw [← out_eq, lit_50, lit_100, X.lit_zero]
   simp
 
-private theorem ite_pair {α β : Type} (c : Prop) [Decidable c] (a : α) (b b' : β) :
-    (if c then (a, b) else (a, b')) = (a, if c then b else b') := by
-  split <;> rfl
-
-/-- closed form of one NON-FIRST call on a state with finite fields (code level, no history) -/
+/-- closed form of one NON-FIRST call on a state with finite fields (code level, no history);
+    derived from the L0 normal form `next_eq`, the generated body is not looked at -/
 theorem nextBar_fin (n ix ct : Nat) (p P N : K) (d : Array (X K)) (o h l c v ev : K)
-    (hn : 0 < n) (h8 : n * 8 ≤ isizeMax) (hix : ix < n) (hct1 : 1 ≤ ct) (hsz : d.size = n)
+    (hn : 0 < n) (h8 : n * 8 ≤ isizeMax) (hix : ix < n) (hct1 : 1 ≤ ct) (hctn : ct ≤ n)
+    (hsz : d.size = n)
     (hev : d[if ix + 1 < n then ix + 1 else 0]? = some (X.fin ev)) :
     nextBar (⟨n, ix, ct, X.fin p, X.fin P, X.fin N, d⟩ : MoneyFlowIndex (X K))
         ⟨X.fin o, X.fin h, X.fin l, X.fin c, X.fin v⟩
@@ -80,33 +78,21 @@ theorem nextBar_fin (n ix ct : Nat) (p P N : K) (d : Array (X K)) (o h l c v ev 
                         + (if p < tpK h l c then tpK h l c * v else 0))
                      ((if ct < n then N else if 0 ≤ ev then N else N + ev)
                         + (if p < tpK h l c then 0 else if tpK h l c < p then tpK h l c * v else 0))) := by
-  have hm : isizeMax < usizeMax := by decide
   have htp := tp_fin o h l c v
   unfold tp at htp
   simp only at htp
-  unfold nextBar flowK
-  simp only [htp]
+  have wf : WF (⟨n, ix, ct, X.fin p, X.fin P, X.fin N, d⟩ : MoneyFlowIndex (X K)) :=
+    ⟨hn, h8, hsz, hix, hctn⟩
+  rw [next_eq _ _ (X.fin ev) wf hct1 hev]
+  unfold flowK
+  simp only [cursor, typical, popPos, popNeg, pushPos, pushNeg, stored, out, htp, X.lt_fin,
+    X.isSignPositive_fin, decide_eq_true_eq]
   generalize tpK h l c = t
-  have hu : uadd ix 1 = some (ix + 1) := uadd_eq _ _ (by omega)
-  have hite : ∀ (c : Prop) [Decidable c] (a b : Nat), (if c then (some a : Option Nat) else some b) = some (if c then a else b) := by
-    intro c _ a b; split <;> rfl
-  simp only [hu, Option.bind_eq_bind, Option.bind_some, Option.pure_def, hite, decide_eq_true_eq]
-  have hj : (if ix + 1 < n then ix + 1 else 0) < n := by
-    split <;> omega
-  generalize (if ix + 1 < n then ix + 1 else 0) = j at hj hev ⊢
-  have hjs : j < d.size := by omega
-  have hx : Rs.index d j = some (X.fin ev) := hev
-  have hset : ∀ w, setIndex d j w = some (d.setIfInBounds j w) := fun w => setIndex_eq _ _ _ hjs
-  simp only [hx, hset, Option.bind_some, X.lt_fin, decide_eq_true_eq, X.isSignPositive_fin]
   by_cases c2 : ct < n
-  · have hu2 : uadd ct 1 = some (ct + 1) := uadd_eq _ _ (by omega)
-    have c3 : ¬ ct + 1 = 1 := by omega
-    simp only [c2, hu2, if_true, Option.bind_some, c3, if_false]
-    by_cases c4 : p < t <;> by_cases c5 : t < p <;>
-      simp [c4, c5, ite_pair, out_eq']
-  · simp only [c2, if_false]
-    by_cases c0 : 0 ≤ ev <;> by_cases c4 : p < t <;> by_cases c5 : t < p <;>
-      simp [c0, c4, c5, hset, ite_pair, out_eq']
+  · by_cases c4 : p < t <;> by_cases c5 : t < p <;>
+      simp [c2, c4, c5, out_eq']
+  · by_cases c0 : 0 ≤ ev <;> by_cases c4 : p < t <;> by_cases c5 : t < p <;>
+      simp [c2, c0, c4, c5, out_eq']
 
 /-! ### specification: signed flows, positive / negative flow sums -/
 
@@ -292,19 +278,17 @@ theorem setIfInBounds_replicate_self {α : Type} (n i : Nat) (a : α) :
 theorem step_first (n : Nat) (hn : 0 < n) (h8 : n * 8 ≤ isizeMax) (o h l c v : K) :
     ∃ s', (fresh n : MoneyFlowIndex (X K)).nextBar ⟨X.fin o, X.fin h, X.fin l, X.fin c, X.fin v⟩
         = some (s', X.fin 50) ∧ Inv n s' (tpK h l c) [] := by
-  have hm : isizeMax < usizeMax := by decide
   have htp := tp_fin o h l c v
   unfold tp at htp
   simp only at htp
-  have hu : uadd 0 1 = some 1 := uadd_eq _ _ (by omega)
   have hr0 := ((RingInv.fresh (X.fin (0 : K)) n hn).push (X.fin 0)).push (X.fin 0)
   rw [setIfInBounds_replicate_self, setIfInBounds_replicate_self] at hr0
   refine ⟨{ period := n, index := if 0 + 1 < n then 0 + 1 else 0, count := 1,
             previous_typical_price := X.fin (tpK h l c), total_positive_money_flow := X.fin 0,
             total_negative_money_flow := X.fin 0, deque := Array.replicate n (X.fin 0) }, ?_, ?_⟩
-  · unfold nextBar fresh
-    simp only [htp, hu]
-    by_cases c1 : 1 < n <;> simp [c1, hn, hu, lit_50]
+  · rw [next_eq_first _ _ (fresh_wf n hn h8) rfl]
+    simp only [typical, htp]
+    simp [fresh, cursor, lit_50, X.lit_zero]
   · refine ⟨rfl, h8, by dsimp only; split <;> omega, by simp; omega, rfl, by simp [posFlow, lastN],
       by simp [negFlow, lastN], ⟨_, by simpa using hr0⟩⟩
 
@@ -338,7 +322,7 @@ theorem step {n : Nat} {s : MoneyFlowIndex (X K)} {p : K} {fl : List K} (i : Inv
   have hng : ng = X.fin (negFlow (lastN pd fl)) := i.neg
   subst hpv hps hng
   simp only at hsz hj hev hpush hix hct
-  rw [nextBar_fin pd ix ct p _ _ d o h l c v (evK pd fl) hn hsmall hix (by omega) hsz hev,
+  rw [nextBar_fin pd ix ct p _ _ d o h l c v (evK pd fl) hn hsmall hix (by omega) (by omega) hsz hev,
     pos_step pd hn fl p (tpK h l c) v hv ct hct, neg_step pd hn fl p (tpK h l c) v hv ct hct]
   refine ⟨_, rfl, ⟨rfl, hsmall, hj, ?_, rfl, rfl, rfl, ⟨_, by simpa using hpush⟩⟩⟩
   simp only [List.length_append, List.length_singleton]
